@@ -441,10 +441,13 @@ Section BuilderMap.
           injection H as <-.
           assert (R1 : MapR st (set_lines_range st1 lr)).
           { apply (add_then_lines_MapR KQuote lr). rewrite H1. reflexivity. }
-          apply IHbs in H2. destruct H2 as [L2 _]. cbn [b_arena set_lines_range] in L2.
+          apply IHbs in H2. destruct H2 as [L2 M2]. cbn [b_arena b_map set_lines_range] in L2, M2.
           destruct R1 as [L1 M1]. cbn [b_arena set_lines_range b_map] in L1, M1.
           split; cbn [b_arena b_map set_lines_range]; [lia|].
-          intros e He. destruct (M1 e He) as [X|X]; [now left | right; lia].
+          (* the line map of the nested builder is kept (32e2d7f): its entries are slots of the quote *)
+          intros e He. apply in_app_iff in He as [He|He].
+          -- destruct (M1 e He) as [X|X]; [now left | right; lia].
+          -- destruct (M2 e He) as [[]|X]. right. lia.
         * eapply Lst; eauto.
         * eapply Lst; eauto.
         * eapply add_then_lines_MapR; eauto.
